@@ -19,7 +19,7 @@ EXPLANATION = (
     "Decided: R24.1 steady-state activity of the extracted Schedule::test decision function equals window membership for every (start "
     "day, end day) pair, grouped into the cases start<end, start=end, start>end, and for the daily form; R24.2 the case split on start "
     "day vs end day covers '='; R24.3 decode_dow tables: days[i] = (first letter of day_names[i], i), two-letter prefixes pairwise "
-    "distinct, 7 entries; create_schedule: missing end_day defaults to start_day. NOT decided: wall-clock behaviour, utc offsets, "
+    "distinct, 7 entries; create_schedule: missing end_day defaults to start_day. R24.4 the day base and every test use the time after the offset adjustment; R24.5 decode_dow returns the weekday of the candidate whose second letter matched; R24.6 Schedule's user-written copy operations carry every data member and _toffset = minutes x Tickval::minute; R24.7 Tickval::adjust(by) moves the value by exactly by for either sign. NOT decided: wall-clock behaviour, "
     "string control flow of decode_dow.")
 extra_cov = {}
 
